@@ -82,4 +82,28 @@ def checkB (s : State) : Option String :=
 def fifoB (before after : List Nat) : Bool :=
   before.tail.isPrefixOf after
 
+/-! ### termination of the run loop: a bound on the number of `Executor::step` calls until the stall -/
+
+/-- what the future in a slot still has to do: one unit per action plus one for returning `Ready`;
+    an emptied slot has nothing left -/
+def wtOpt : Option Script → Nat
+  | none => 0
+  | some acts => acts.length + 1
+
+/-- work left in the slots of the tasks created so far -/
+def futW (s : State) : Nat := ((List.range s.ntasks).map fun u => wtOpt (s.fut u)).sum
+
+/-- work left in the scripts that have not been spawned yet -/
+def poolW (s : State) : Nat := (s.pool.map fun sc => sc.length + 1).sum
+
+/-- all the work left: it never grows, and a poll that leaves it unchanged leaves the queue one shorter -/
+def work (s : State) : Nat := futW s + poolW s
+
+/-- the number of tasks that can ever exist (the queue never gets longer than this: no duplicates) -/
+def cap (s : State) : Nat := s.ntasks + s.pool.length
+
+/-- `while let Some(_) = self.step() {}` of `Executor::run_until_stalled` ends after at most this many
+    iterations -/
+def stallBound (s : State) : Nat := work s * (cap s + 1) + s.queue.length
+
 end YashModel.Executor
